@@ -267,12 +267,12 @@ def registry(ctx, reg):
     rl, rc = RA.methods.get('readcodelanguages'), RA.methods.get('readcode')
     if rl is None or rc is None:
         raise AnalysisError('RaggedArray.readcode / readcodelanguages vanished')
-    ok = any(isinstance(n, ast.For) and norm(n.iter) in ('readcodefunc.keys()', 'readcodefunc') for n in own_nodes(rl.node)) and \
-        any(isinstance(n, ast.If) and 'is not None' in norm(n.test) for n in own_nodes(rl.node))
+    from ._shared import languages_over_registry, rejects_unknown_language
+    ok = languages_over_registry(ctx, rl)
     ctx.decide(ok, 'R-SIB', 'A4', rl, None, 'readcodelanguages-over-registry',
                'RaggedArray.readcodelanguages lists exactly the ragged registry languages for which code is offered',
                detail='does not range over the ragged registry with the is-not-None filter')
-    ok = any(isinstance(n, ast.If) and 'language not in readcodefunc' in norm(n.test) for n in own_nodes(rc.node))
+    ok = rejects_unknown_language(ctx, rc, reg, ctx.repo.func('readcoderaggedarray.readcode'))
     ctx.decide(ok, 'R-SIB', 'A4', rc, None, 'readcode-validates-language', 'RaggedArray.readcode rejects unknown languages', detail='validation vanished')
     disp = ctx.repo.func('readcoderaggedarray.readcode')
     call = [n for n, cal in ctx.E.callees(rc) if cal is disp and isinstance(n, ast.Call)]
